@@ -4,6 +4,7 @@ import (
 	"bytes"
 	"encoding/hex"
 	"fmt"
+	"io"
 	"math"
 	"reflect"
 	"runtime"
@@ -47,12 +48,13 @@ func runUntrusted(payload string) string {
 				if mode == "w" {
 					eo = json.EncodeOptions{Indent: []byte("  ")}
 				}
-				var w bytes.Buffer
+				// (the indented output of a document nested d deep is d*d/2 indent bytes long by its nature: it is
+				// written to a sink that keeps nothing, so that what is measured is what the library allocates)
 				var src shared.TokenSource = json.NewDecoder(bytes.NewReader(in))
 				if fmtc == "c" {
 					src = cbor.NewDecoder(cbor.DecodeOptions{}, bytes.NewReader(in))
 				}
-				return shared.TokenPump{TokenSource: src, TokenSink: json.NewEncoder(&w, eo)}.Run()
+				return shared.TokenPump{TokenSource: src, TokenSink: json.NewEncoder(io.Discard, eo)}.Run()
 			}
 			if mode == "p" {
 				var w bytes.Buffer
